@@ -247,6 +247,8 @@ def _run(orc, meas, skipped, idx, it, r, progs, mod, k):
                 c05 = {"num_coefficients": ncoef, "flags": flags,
                        "positions": [int(fobj.original_coefficient_positions[i]) for i in range(ncoef)],
                        "expect_positions": [int(v) for v in r["expect_positions"]],
+                       "constant_shapes": s5.c_descriptor(mod, k)["constant_shapes"],
+                       "expect_constants": r.get("expect_constants"),
                        "used": sorted({lf["k"] for part in prog.parts for lf in part.cleaves}),
                        "A_poisoned": [[float(z.real), float(z.imag)] for z in A2.astype(complex)]}
             try:
